@@ -15,11 +15,20 @@ KNOWN_FILE = os.path.join(VERIF, "known_findings.json")
 
 
 def load_known() -> List[dict]:
-    if not os.path.exists(KNOWN_FILE):
-        return []
-    with open(KNOWN_FILE) as f:
-        data = json.load(f)
-    return data.get("findings", [])
+    """Known findings: /verif/known_findings.json plus /verif/known/*.json
+    (read-only at run time; never written by a check)."""
+    files = []
+    if os.path.exists(KNOWN_FILE):
+        files.append(KNOWN_FILE)
+    kd = os.path.join(VERIF, "known")
+    if os.path.isdir(kd):
+        files.extend(os.path.join(kd, f) for f in sorted(os.listdir(kd)) if f.endswith(".json"))
+    out: List[dict] = []
+    for fn in files:
+        with open(fn) as f:
+            data = json.load(f)
+        out.extend(data.get("findings", []))
+    return out
 
 
 class Violation:
